@@ -464,8 +464,26 @@ def op_list_name_contains_reference(form, r):
 def op_osm_tag_without_name(form, r):
     node = {"k": "q", "c": {"type": "osm ztags", "name": f"{TOK}osm", "label": "O"}}
     form["nodes"].append(node)
-    form["osm"] = list(form.get("osm") or []) + [{"list_name": "ztags", "name": "building", "label": "B"}, {"list_name": "ztags", "label": f"{TOK} no name"}]
-    return Plan(form, tokens=["name"], anyof=["osm", "tag", "Tag"], sheet="osm", stable=False)
+    rows = list(form.get("osm") or []) + [{"list_name": "ztags", "name": "building", "label": "B"}]
+    rows += [{} for _ in range(r.choice([0, 0, 1, 2, 5]))]      # blank separator rows above the bad one: its row number counts them
+    rows.append({"list_name": "ztags", "label": f"{TOK} no name"})
+    form["osm"] = rows
+    return Plan(form, tokens=["name"], anyof=["osm", "tag", "Tag"], sheet="osm", stable=False, row=len(rows) + 1)
+
+
+def op_entities_suffixed_header(form, r):
+    """an entities column with a language suffix, as the label columns of a translated survey have: not a supported column"""
+    ent = form.get("entities")
+    if not ent:
+        form["entities"] = ent = [{"list_name": f"{TOK}ds", "label": "'x'"}]
+    col = r.choice([k for k in ent[0] if k in ("list_name", "dataset", "label", "entity_id")] or ["label"])
+    suffix = "::" + r.choice(["English (en)", "fr", "French (fr)"])
+    new = col + suffix
+    for row in ent:
+        if col in row:
+            row[new] = row.pop(col)
+    # (the message may name the column by its canonical name -- list_name is an alias of dataset -- but it names the suffix as typed)
+    return Plan(form, tokens=[suffix], sheet="entities", stable=False)
 
 
 def op_dup_header(form, r):
@@ -532,9 +550,17 @@ def op_missing_required_header(form, r):
 
 
 def op_instance_id_clash(form, r):
-    kind = r.choice(["list-vs-external", "xml-vs-csv", "two-xml", "pulldata-vs-xml"])
+    kind = r.choice(["list-vs-external", "xml-vs-csv", "two-xml", "pulldata-vs-xml", "two-files-same-stem", "two-files-same-stem"])
     nodes = form["nodes"]
     tok = f"{TOK}_inst"
+    if kind == "two-files-same-stem":
+        # two selects that read different files with the same stem: one instance id, two sources
+        a, b = r.sample([".csv", ".xml", ".geojson"], 2)
+        cs = _containers(form)
+        nodes.append({"k": "q", "c": {"type": r.choice(["select_one_from_file", "select_multiple_from_file"]) + f" {tok}{a}", "name": f"{TOK}_f1", "label": "F1"}})
+        (r.choice(cs)[0]["ch"] if cs and r.random() < 0.6 else nodes).append(
+            {"k": "q", "c": {"type": r.choice(["select_one_from_file", "select_multiple_from_file"]) + f" {tok}{b}", "name": f"{TOK}_f2", "label": "F2"}})
+        return Plan(form, tokens=[tok], stable=False)
     if kind == "list-vs-external":
         sel = _selects(form, ("select_one", "select_multiple"))
         if not sel:
@@ -854,7 +880,7 @@ OPS = {
     "missing-survey": op_missing_survey, "or-other-with-filter": op_or_other_with_filter,
     "space-in-multi-choice": op_space_in_multi_choice, "wrong-file-ext": op_wrong_file_ext, "audit-with-name": op_audit_with_name,
     "big-image-no-image": op_big_image_no_image, "no-label": op_no_label, "external-no-sheet": op_external_no_sheet,
-    "external-unknown-list": op_external_unknown_list, "bad-trigger": op_bad_trigger, "list-name-contains-reference": op_list_name_contains_reference, "osm-tag-without-name": op_osm_tag_without_name, "search-misuse": op_search_misuse,
+    "external-unknown-list": op_external_unknown_list, "bad-trigger": op_bad_trigger, "list-name-contains-reference": op_list_name_contains_reference, "osm-tag-without-name": op_osm_tag_without_name, "entities-suffixed-header": op_entities_suffixed_header, "search-misuse": op_search_misuse,
     "omit-instanceid-with-key": op_omit_instance_id_with_key, "save-to-problem": op_save_to_problem,
     "table-list-mismatch": op_table_list_mismatch, "loop-problems": op_loop_problems,
 }
